@@ -186,6 +186,9 @@ class InterpCore(object):
                     self.stack.pop()
             return fv
         if isinstance(r, ClassInfo):
+            nt = self.typing_namedtuple(r, node)
+            if nt is not None:
+                return nt
             return ClassV(r)
         if isinstance(r, Module):
             return ModV(r.name, r)
@@ -216,6 +219,21 @@ class InterpCore(object):
                     self.loop_stack = saved_loops
             return menv.vars.get(name)
         return None
+
+    def typing_namedtuple(self, ci, node):
+        """class X(typing.NamedTuple): <annotated fields>  ->  the named tuple type with those fields, in order"""
+        bases = [self.p.resolve_expr(ci.module, b) for b in ci.node.bases]
+        if not any(type(b).__name__ == "External" and b.name in ("typing.NamedTuple", "typing_extensions.NamedTuple") for b in bases):
+            return None
+        if len(bases) != 1 or ci.methods or ci.node.decorator_list:
+            self.err(node, "typing.NamedTuple class %s with methods, decorators or further bases" % ci.name)
+        from .symeval_ops import NTClassV
+        nt = NTClassV(ci.name, [n for n, _ in ci.ann_fields])
+        nt.defaults = {}
+        for n, d in ci.ann_fields:
+            if d is not None:
+                nt.defaults[n] = self.eval(d, Env(module=ci.module, label=ci.fq))
+        return nt
 
     # ------------------------------------------------------------ name lookup
     _BUILTINS = ("range", "len", "float", "int", "str", "print", "tuple", "list", "sorted", "enumerate", "zip",
@@ -736,6 +754,11 @@ class InterpCore(object):
             if neg_cond(pc).key() == k:
                 return not val
         return cond
+
+    def e_NamedExpr(self, node, env):
+        v = self.eval(node.value, env)
+        self.assign(node.target, v, env)
+        return v
 
     def e_IfExp(self, node, env):
         t = self.truth(self.eval(node.test, env))
